@@ -31,13 +31,22 @@ def run(prog, rep, tier):
                   "is reset with the pull), so alternatives are served left to right for every input, not rotated by earlier inputs; "
                   "Y2: the scanner fields that only matter inside %( ... %) (level, in_string) are set to their initial value whenever that start "
                   "condition is entered or provably restored whenever it is left (typestate over the flex actions), so every splice of a format "
-                  "string is scanned independently of the previous one.")
+                  "string is scanned independently of the previous one; R8: in every function that holds a reference into the per-execution state "
+                  "area (scon::get), a field handed with std::move to a by-value or && parameter (smart pointers excepted: their moved-from state "
+                  "is the `none` the op tests) is assigned, emplaced or reset again on every CFG path to the exit (a value cached for the current "
+                  "input, e.g. the suffix a format splice appends to every result, is still intact for the next result); positive control under /verif/controls.")
     rep.not_decided = ("that the yielded multiset equals the documented meaning of each construct and the left-to-right order of results "
                        "(run-time values; needs execution).")
     apply(rep, "R1", "no exhaustion latch in next()", r_stream.r1(prog), 60)
     apply(rep, "R4", "origin/chain/layout pairing", r_stream.r4(prog), 17)
     apply(rep, "R5", "per-input accumulators reset on new input", r_stream.r5(prog), 3)
     apply(rep, "R7", "`no stack` is returned only when the upstream pull returned none", r_stream.r7(prog), 60)
+    r8 = r_stream.r8(prog)
+    apply(rep, "R8", "values cached in the execution state for the current input are not left moved-from", r8, 1)
+    if [i for i in r8[0] if i[0] == "R8:functions-with-state-references"][0][1]["scanned"] < 25:
+        raise Broken("R8 saw fewer functions holding a reference into the execution state than confirmed by hand (25)")
+    from common import control
+    control(rep, "R8", r_stream.r8, ["R8:verif_control_steals::next_bad:m_str"])
     apply(rep, "R6", "a new input is pulled for an ALT-list only by its first branch (left-to-right per input)", r_stream.r6(prog), 1)
     import r_lex
     apply(rep, "Y2", "scanner fields local to a start condition are initialised when it is entered", r_lex.y2(prog), 2)
